@@ -30,9 +30,11 @@ pub fn unify_function(
     let (left, right) = (&constraint.parent, &constraint.child);
     match (&left.expect, &right.expect) {
         (Function { args, .. }, Type { name }) | (Type { name }, Function { args, .. }) => {
+            // In a fixed order (see function_access): constraints are unified in push order.
             let arguments_union: Vec<Vec<Name>> = name
                 .names
                 .iter()
+                .sorted()
                 .cloned()
                 .map(|n| n.args(right.pos))
                 .collect::<Result<_, _>>()?;
